@@ -226,28 +226,41 @@ static std::string serialOne(const std::vector<std::string>& f) {
 		}
 		if (!ok) return "DIVERGE";
 		try { ser = a.serialize(); } catch (Event e) { return "SER=err:" + e.name; }
-		// restored copy
+		std::vector<std::string> cont = f[3] == "-" ? std::vector<std::string>() : uv::split(f[3], ',');
+		// one continuation: "~<ms>" = wait for the pending delayed events - step with a bound of <ms> until that long passes
+		// without anything happening (the bound is per event, so a late timer only costs time), then settle
+		auto continueWith = [&](Interpreter& x, Rec& rec) {
+			bool ok = runQuiescent(x, rec, 60);
+			for (const std::string& ev : cont) {
+				if (!ok) break;
+				if (ev.size() > 1 && ev[0] == '~') {
+					int ms = atoi(ev.c_str() + 1);
+					for (int k = 0; k < 400; k++) {
+						size_t before = rec.toks.size();
+						InterpreterState st = x.step(ms);
+						if (st == USCXML_FINISHED) break;
+						if (st == USCXML_IDLE && rec.toks.size() == before) break;
+					}
+					ok = runQuiescent(x, rec, 60);
+				} else {
+					x.receive(Event(ev, Event::EXTERNAL)); ok = runQuiescent(x, rec, 60);
+				}
+			}
+		};
+		// the original goes on right after the snapshot ...
+		fromA = recA.toks.size();
+		continueWith(a, recA);
+		// ... and so does the restored copy after its restoration: the remaining delays in the snapshot are relative to the
+		// moment it was taken, a copy left waiting while the original runs would see its timers expire early
 		Interpreter& b = makeInterp(engine, xml, recB);
 		try { b.deserialize(ser); } catch (Event e) { status = "err:" + e.name; }
+		fromB = recB.toks.size();
+		if (status == "ok") continueWith(b, recB);
 		// a foreign document must be rejected
 		{
 			Rec recC;
 			Interpreter& c = makeInterp(engine, other, recC);
 			try { c.deserialize(ser); foreign = "accepted"; } catch (Event e) { foreign = "rejected"; } catch (...) { foreign = "rejected"; }
-		}
-		fromA = recA.toks.size(); fromB = recB.toks.size();
-		std::vector<std::string> cont = f[3] == "-" ? std::vector<std::string>() : uv::split(f[3], ',');
-		bool okA = runQuiescent(a, recA, 60), okB = status == "ok" ? runQuiescent(b, recB, 60) : false;
-		for (const std::string& ev : cont) {
-			if (ev.size() > 1 && ev[0] == '~') {
-				// "~<ms>": let that much time pass (pending delayed events become due in both), then settle both
-				std::this_thread::sleep_for(std::chrono::milliseconds(atoi(ev.c_str() + 1)));
-				if (okA) okA = runQuiescent(a, recA, 60);
-				if (okB) okB = runQuiescent(b, recB, 60);
-				continue;
-			}
-			if (okA) { a.receive(Event(ev, Event::EXTERNAL)); okA = runQuiescent(a, recA, 60); }
-			if (okB) { b.receive(Event(ev, Event::EXTERNAL)); okB = runQuiescent(b, recB, 60); }
 		}
 		// what a second snapshot says
 		std::string serA, serB;
